@@ -162,6 +162,9 @@ class MarkupMachine(Machine):
         root[key] = []
         for state_name, state in self.states.items():
             s_def = _convert(state, self.state_attributes, self.format_references)
+            if not getattr(state, 'ignore_invalid_triggers', None) and self.ignore_invalid_triggers:
+                # a falsy flag (False or None) differs from what add_states would fill in on import
+                s_def['ignore_invalid_triggers'] = state.ignore_invalid_triggers
             if isinstance(state_name, Enum):
                 s_def['name'] = state_name.name
             else:
